@@ -294,6 +294,9 @@ def defects(rng, rows, model):
                       ("undeclared-field-in-isunique", ["C", "new", "IsUnique", "no_such_field"]),
                       ("undeclared-field-in-isunique-list", ["C", "new", "IsUnique", names[0] + ", no_such_field"]),
                       ("undeclared-field-in-distinctcount", ["C", "new", "DistinctCount", "no_such_field < 3"]),
+                      ("undeclared-field-in-distinctcount-after-or", ["C", "new", "DistinctCount", names[0] + " < 1 or no_such_field"]),
+                      ("undeclared-field-in-distinctcount-after-and", ["C", "new", "DistinctCount", names[0] + " < 0 and no_such_field > 1"]),
+                      ("undeclared-field-in-distinctcount-conditional", ["C", "new", "DistinctCount", names[0] + " < 9 if True else no_such_field"]),
                       ("isunique-empty-rule", ["C", "new", "IsUnique", ""]),
                       ("isunique-double-comma", ["C", "new", "IsUnique", names[0] + ",," + names[-1]]),
                       ("isunique-missing-comma", ["C", "new", "IsUnique", names[0] + " " + names[-1]]),
@@ -303,6 +306,13 @@ def defects(rng, rows, model):
                       ("distinctcount-number-first", ["C", "new", "DistinctCount", "3 < " + names[0]])):
         r, line, why = extra(row)
         yield name, r, line, why
+    if c_index:
+        # every check follows the fields: no field may be declared once a check has been
+        late = ["F", "late_field", "", "", "3" if kind == "fixed" else "", "Text", ""]
+        yield "field-after-check", rows + [late], None, None
+    if len(f_index) >= 2:
+        k = f_index[1]
+        yield "check-between-fields", rows[:k] + [["C", "between", "IsUnique", names[0]]] + rows[k:], None, None
     if c_index:
         yield "duplicate-check-description", rows + [["C", rows[c_index[0]][1], "IsUnique", names[0]]], tail + 1, None
     for bad in ("X", "field", "FF", "1", "#"):
